@@ -487,6 +487,21 @@ SPEC = [
     ('acc_stop_is_end', 'accessors.py', 'SubvolumeAccessor._get_index_subscripts', ('iftest', 0), 'Prop'),
     ('acc_negative_index', 'accessors.py', 'Accessor.__getitem__', ('callarg', 'values_function', 1, 0), 'Int'),
     ('acc_is_negative', 'accessors.py', 'Accessor.__getitem__', ('iftest', 1), 'Prop'),
+    # conversion_utils.py: the other producers
+    ('numpy_sets', 'conversion_utils.py', 'numpy_producer', ('assign', 'n_plane_sets', 0), 'Nat'),
+    ('numpy_last_set', 'conversion_utils.py', 'numpy_producer', ('ifassign', 'planes_to_read', 0), 'Prop'),
+    ('numpy_planes', 'conversion_utils.py', 'numpy_producer', ('assign', 'planes_to_read', 0), 'Nat'),
+    ('numpy_pad_planes', 'conversion_utils.py', 'numpy_producer', ('assign', 'ilines_pad', 0), 'Nat'),
+    ('numpy_slab_lo', 'conversion_utils.py', 'numpy_producer', ('subscript', 'in_array', 0, 0, 'lower'), 'Nat'),
+    ('numpy_slab_hi', 'conversion_utils.py', 'numpy_producer', ('subscript', 'in_array', 0, 0, 'upper'), 'Nat'),
+    ('line2d_groups', 'conversion_utils.py', 'seismic_file_producer_2d', ('assign', 'n_trace_groups', 0), 'Nat'),
+    ('line2d_last_group', 'conversion_utils.py', 'seismic_file_producer_2d', ('ifassign', 'traces_to_read', 0), 'Prop'),
+    ('line2d_traces', 'conversion_utils.py', 'seismic_file_producer_2d', ('assign', 'traces_to_read', 0), 'Nat'),
+    ('line2d_trace_id', 'conversion_utils.py', 'io_thread_func_2d', ('assign', 'trace_id', 0), 'Nat'),
+    ('irregular_inline_number', 'conversion_utils.py', 'unstructured_io_thread_func', ('assign_elt', 'index', 0, 0), 'Int'),
+    ('irregular_t_store', 'conversion_utils.py', 'unstructured_io_thread_func', ('assign', 't_store', 0), 'Nat'),
+    # sgz_xarray.py
+    ('xarray_int_key', 'sgz_xarray.py', 'SeismicZfpBackendArray._raw_indexing_method', ('assign', 'k', 0), 'Int'),
     # loader.py, 2D
     ('trace_range_offset', 'loader.py', 'SgzLoader2d.read_and_decompress_trace_range', ('assign', 'block_offset', 0), 'Nat'),
     ('trace_range_length', 'loader.py', 'SgzLoader2d.read_and_decompress_trace_range', ('callarg', '_get_compressed_bytes', 0, 1), 'Nat'),
